@@ -188,6 +188,43 @@ pub fn exec_more(t: &[&str]) -> R {
                 Ok(format!("half={} verifies={} clone_verifies={} clone_same={} reparse_same={}", half, v1 as u8, v2 as u8, clone_same as u8, reparse_same as u8))
             })
         }
+        // every other encoding of the *same* public point that the back end accepts (SEC1 uncompressed / hybrid / compact)
+        // gives a key that behaves like the derived public key: verifies what the secret key signs, and a key sealed to it
+        // is unsealed by the secret key
+        "o.pkforms" => {
+            let (b, raw) = (be(1)?, hx(2)?);
+            if b.version() != 3 { return Ok("n/a".to_string()); }
+            with_v!(b, V => {
+                use paseto_core::tokens::UnsealedToken;
+                use paseto_core::version::Public;
+                let sk = match key_of::<V, Secret>(&raw) { Ok(k) => k, Err(_) => return Ok("rejected".to_string()) };
+                let pkraw = sk.public_key().expose_key().as_raw_bytes().to_vec();
+                let unc = crate::gen_paserk::p384_uncompressed(&pkraw).ok_or("derived public key is not a SEC1 point")?;
+                let mut forms: Vec<Vec<u8>> = vec![unc.clone()];
+                let mut hy = unc.clone(); hy[0] = 6 + (unc[96] & 1); forms.push(hy);
+                let mut co = unc[..49].to_vec(); co[0] = 5; forms.push(co);
+                let tok = UnsealedToken::<V, Public, Raw>::new(Raw(b"m".to_vec())).sign(&sk).map_err(|e| format!("sign-{}", en(e)))?;
+                let ts = tok.to_string();
+                let ksk = key_of::<V, PkeSecret>(&raw).map_err(|e| format!("pkesk-{}", en(e)))?;
+                let (mut acc, mut ver, mut seal, mut same) = (0, 0, 0, 0);
+                for f in &forms {
+                    let Ok(pk) = key_of::<V, Public>(f) else { continue };
+                    // compact form: only a statement about this key if it decodes to the same point
+                    if f[0] == 5 && crate::gen_paserk::p384_uncompressed(pk.expose_key().as_raw_bytes()).as_deref() != Some(&unc[..]) { continue; }
+                    acc += 1;
+                    let t2: paseto_core::SignedToken<V, Raw> = ts.parse().map_err(|e| format!("parse-{}", en(e)))?;
+                    ver += t2.verify(&pk, &paseto_core::validation::NoValidation::dangerous_no_validation()).is_ok() as u32;
+                    same += (pk.clone().expose_key().as_raw_bytes() == pk.expose_key().as_raw_bytes()) as u32;
+                    if let Ok(ppk) = key_of::<V, PkePublic>(f) {
+                        let lk = key_of::<V, Local>(&[0x5au8; 32]).map_err(en)?;
+                        let ok = lk.seal(&ppk).ok().map(|s| s.to_string()).and_then(|s| SealedKey::<V>::from_str(&s).ok()).and_then(|s| s.unseal(&ksk).ok())
+                            .map(|k| k.expose_key().as_raw_bytes() == &[0x5au8; 32][..]).unwrap_or(false);
+                        seal += ok as u32;
+                    } else { seal += 1; }
+                }
+                Ok(format!("forms={acc} verifies={ver} seals={seal} clone={same}"))
+            })
+        }
         // id string and PASERK text of the same key, for the oracle's independent hash
         "o.id.spec" => {
             let (b, k, raw) = (be(1)?, kd(2)?, hx(3)?);
